@@ -378,3 +378,46 @@ def _guards_raw(ff: FuncFlow, node: ast.AST) -> List[Tuple[ast.AST, bool]]:
       break
     child, n = n, m.parent_of.get(n)
   return out
+
+
+def carried_reads(ff: FuncFlow, loop: ast.AST, name: str) -> List[ast.Name]:
+  """Reads of `name` inside `loop` (a For/While statement) that a value from a previous iteration (or from before the loop) can
+  reach: on some path from the start of an iteration to the read, `name` is not assigned. Empty list = the variable is fresh in
+  every iteration."""
+  cfg = ff.cfg
+  head = next((n for n in cfg.nodes if n.ast is loop and n.kind in ('for', 'while')), None)
+  if head is None:
+    return []
+  body = cfg.loop_body_nodes(head)
+  entry = [s for s, lab in head.succ if lab == 'true']
+  defines = {}
+  for nid in body:
+    n = cfg.nodes[nid]
+    defines[nid] = any(d.name == name and d.kind != 'del' for d in ff.rd.defs_at.get(nid, []))
+  IN = {nid: True for nid in body}
+  for e in entry:
+    IN[e.id] = False
+  changed = True
+  while changed:
+    changed = False
+    for nid in body:
+      n = cfg.nodes[nid]
+      if any(n is e for e in entry):
+        val = False
+      else:
+        preds = [p for p, _ in n.pred if p.id in body]
+        val = all((IN[p.id] or defines[p.id]) for p in preds) if preds else False
+      if val != IN[nid]:
+        IN[nid] = val
+        changed = True
+  out = []
+  for nid in body:
+    n = cfg.nodes[nid]
+    if n.ast is None or IN[nid]:
+      continue
+    for x in n.walk():
+      if isinstance(x, ast.Name) and x.id == name and isinstance(x.ctx, ast.Load):
+        out.append(x)
+      elif isinstance(x, ast.AugAssign) and isinstance(x.target, ast.Name) and x.target.id == name:
+        out.append(x.target)
+  return out
